@@ -131,9 +131,32 @@ def audit():
         lock.close()
 
 
-def check_property(prop):
+def recheck():
+    """thorough tier: the compiled library is re-checked by leanchecker (an independent replay of every
+    declaration through the kernel); cached on the source hash"""
+    lock = _lock()
+    try:
+        cache_path = os.path.join(LEAN, '.lake', 'recheck-cache.json')
+        h = source_hash()
+        if os.path.exists(cache_path):
+            try:
+                if json.load(open(cache_path)).get('hash') == h:
+                    return
+            except Exception:
+                pass
+        r = subprocess.run(['lake', 'env', 'leanchecker', 'Yld'], cwd=LEAN, capture_output=True, text=True, timeout=1500)
+        if r.returncode != 0:
+            raise LeanBroken('leanchecker rejects the compiled library', (r.stdout + r.stderr)[-3000:])
+        json.dump({'hash': h}, open(cache_path, 'w'))
+    finally:
+        lock.close()
+
+
+def check_property(prop, tier='quick'):
     """Returns the evidence dict for the proof part, or raises LeanBroken."""
     build()
+    if tier == 'thorough':
+        recheck()
     a = audit()
     if a['forbidden']:
         raise LeanBroken('forbidden construct in Lean sources', '\n'.join(a['forbidden']))
@@ -154,7 +177,8 @@ def check_property(prop):
         'discharged': discharged,
         'theorems': thms,
         'axioms': sorted(used),
-        'checker_cmd': 'cd /verif/lean && lake build && lake env lean .lake/Audit.lean   # #print axioms on every theorem of Yld/Properties/%s.lean' % prop,
+        'checker_cmd': 'cd /verif/lean && lake build && lake env lean .lake/Audit.lean   # #print axioms on every theorem of Yld/Properties/%s.lean' % prop
+                       + ('; lake env leanchecker Yld' if tier == 'thorough' else ''),
         'trusted_base': [
             'Lean 4.33.0 kernel',
             'axioms: ' + (', '.join(sorted(used)) or 'none'),
